@@ -21,3 +21,5 @@ for C in mod.ALL:
     for r in bad:
         print('   ', r.status.upper(), r.name, 'path', r.path, '|', r.detail[:300].replace('\n', ' '))
         if r.model: print('      input:', str(r.model)[:400])
+    slow = sorted(res, key=lambda r: -r.seconds)[:3]
+    print('    slowest:', [(r.name.split('/')[-1], r.path, round(r.seconds,2)) for r in slow])
